@@ -56,8 +56,10 @@ pub struct World {
     pub d_ppb: i64,
     pub coarse_tick: i128,
     pub log: Vec<ReadEv>,
-    /// Delay injected right before the next monotonic-like read of a client (between its two reads).
+    /// Delay injected between the first and the second clock read of a client call (whichever
+    /// clocks these are).
     pub client_gap: i128,
+    pub client_reads: u32,
     pub keep_log: bool,
 }
 
@@ -79,10 +81,13 @@ impl World {
     fn read(&mut self, clk: i32) -> (i64, i64) {
         let role = ROLE.with(|r| r.get());
         let real = clk == libc::CLOCK_REALTIME || clk == libc::CLOCK_REALTIME_COARSE;
-        if !real && role == ROLE_CLIENT && self.client_gap > 0 {
-            let g = self.client_gap;
-            self.client_gap = 0;
-            self.advance(g);
+        if role == ROLE_CLIENT {
+            self.client_reads += 1;
+            if self.client_reads == 2 && self.client_gap > 0 {
+                let g = self.client_gap;
+                self.client_gap = 0;
+                self.advance(g);
+            }
         }
         let v = if real {
             self.realtime_ns()
@@ -317,6 +322,7 @@ impl Sim {
     fn query(&mut self, a: &Args, prop: &str, fresh: bool, tag: &str, gap: i128, obs: &mut Obs, violations: &mut Vec<Value>, history: &[String], sync_phase: bool) -> Option<(i32, i128)> {
         let mut w = self.world.lock().unwrap();
         w.client_gap = gap;
+        w.client_reads = 0;
         w.keep_log = true;
         let log_from = w.log.len();
         let tol_tick = w.coarse_tick;
@@ -578,7 +584,7 @@ fn one_history(a: &Args, mode: &str, seed: u64, obs: &mut Obs, violations: &mut 
         _ => rng.range(-50_000_000, 50_000_000) as i128 * UNIT,
     };
     let tick = if mode == "c01" && arg_tick(a) > 0 && rng.chance(1, 3) { arg_tick(a) } else { 0 };
-    let world = Arc::new(Mutex::new(World { t: t0, t_boot: t0 - uptime_s * NS - rng.range(0, 999_999_999) as i128, err_units: err0, rate_ppb: 0, d_ppb, coarse_tick: tick, log: Vec::new(), client_gap: 0, keep_log: false }));
+    let world = Arc::new(Mutex::new(World { t: t0, t_boot: t0 - uptime_s * NS - rng.range(0, 999_999_999) as i128, err_units: err0, rate_ppb: 0, d_ppb, coarse_tick: tick, log: Vec::new(), client_gap: 0, client_reads: 0, keep_log: false }));
     install(&world);
     let dir = workdir(&format!("w{}", a.shard));
     let path = dir.join("shm");
